@@ -106,7 +106,7 @@ func c13Exec(op c13Op) (string, string) {
 	case "merge":
 		texts := append([]string{}, op.Texts...)
 		r := realMerge(op.Names, op.Texts, "1.2")
-		frame := ""
+		frame := r.Frame
 		for i := range texts {
 			if texts[i] != op.Texts[i] {
 				frame = "merge modified its input slice"
